@@ -10,11 +10,14 @@ CASE_TYPE = "case_C06"
 MISMATCHES = "mismatches_C06"
 VIOLATIONS = "violations_C06"
 KNOWN = "known_C06"
+EXHAUSTIVE = {"quick": False, "thorough": False}
 SHARD = 220
 RULE = ("corpora of 0-6 real jobs (state point + optional document) over a typed value universe (ints, int-valued "
         "floats incl. -1.0/-2.0, other floats, bools, None, strings, lists, nested mappings, missing keys), each "
         "queried through Project.find_jobs with ~40 filters: a fixed list of boundary filters, seeded random filters "
         "of the documented grammar up to depth 3 (implicit equality, all operators, $and/$or/$not, dotted/nested "
+        "keys; thorough additionally enumerates a small-scope grammar exhaustively: every pair of 11 typed values "
+        "under one key x ~500 filters incl. every operator, $not of each, and $and/$or/$not combinations; "
         "keys, sp./doc. namespaces, operator as nested mapping or key suffix) and a malformed stream. "
         "non-trivial: the filter selects a non-empty proper subset of the corpus, or raises; distinct by "
         "(corpus, filter)")
@@ -28,9 +31,43 @@ ASSUMPTIONS = ["ints |x| < 2^53, finite floats", "dicts nested inside list value
                "$where (eval) is outside the documented grammar and not generated"]
 
 
+SMALL_VALUES = [0, 1, 1.0, True, -1, -1.0, 0.5, "x", None, [1, 2], {"x": 1}]
+SMALL_ARGS = [1, 1.0, True, -1, 0.5, "x", None, [1, 2]]
+
+
+def small_scope_filters():
+    """Bounded-exhaustive small-scope grammar over one state point key `a` (and its nested `a.x`)."""
+    simple = [{"a": v} for v in SMALL_ARGS]
+    for op in ("$eq", "$ne", "$gt", "$gte", "$lt", "$lte"):
+        simple += [{"a": {op: v}} for v in SMALL_ARGS[:7]]
+    for op in ("$in", "$nin"):
+        simple += [{"a": {op: l}} for l in ([], [1], [1.0, "x"], [None, [1, 2]], [True, -1])]
+    simple += [{"a": {"$exists": b}} for b in (True, False)]
+    simple += [{"a.x": {"$exists": True}}, {"a.x": 1}, {"a": {"x": 1}}]
+    simple += [{"a": {"$type": t}} for t in qg.TYPES]
+    simple += [{"a": {"$regex": p}} for p in ("^x", "y")]
+    simple += [{"a": {"$near": [1, 0.5]}}, {"a": {"$near": 1.0000000001}}]
+    out = list(simple)
+    out += [{"$not": f} for f in simple]
+    for i, f in enumerate(simple):
+        g = simple[(7 * i + 3) % len(simple)]
+        h = simple[(11 * i + 5) % len(simple)]
+        out.append({"$and": [f, g]})
+        out.append({"$or": [f, g]})
+        out.append({"$or": [f, {"$not": h}], "$not": g})
+    return out
+
+
 def gen_inputs(tier, rng):
     ncorp, nfilt = (60, 30) if tier == "quick" else (900, 45)
     descs = []
+    if tier != "quick":
+        filters = [typed(f) for f in small_scope_filters()]
+        for i, v in enumerate(SMALL_VALUES):
+            for w in SMALL_VALUES[i:]:
+                jobs = [{"sp": typed({"a": v, "b": 0}), "doc": None}, {"sp": typed({"a": w, "b": 1}), "doc": None},
+                        {"sp": typed({"b": 2}), "doc": None}]
+                descs.append({"jobs": jobs, "filters": filters})
     for i in range(ncorp):
         jobs = qg.rand_corpus(rng, clashy=(i % 4 == 0))
         filters = list(qg.FIXED) if i % 6 == 0 else rng.sample(qg.FIXED, 8)
